@@ -41,6 +41,10 @@ type blockCase struct {
 	Conns   int    `json:"conns"`
 	Block   []BOp  `json:"block"`
 	Choices []int  `json:"choices"` // which enabled task continues at the i-th yield (mod the number enabled)
+	// Frames: the prefix may leave pose / component updates pending in the senders' dispatchers; a
+	// frame is dispatched just before the block and every connection handles what the frame released
+	// as (the first part of) its task - concurrently with the other requests of the block
+	Frames bool `json:"frames,omitempty"`
 }
 
 func (c blockCase) pretty() []string {
@@ -74,7 +78,7 @@ func runBlock(c blockCase, policy func(y vsync.Yield, i int) int) (res blockResu
 	ex := NewExec(w, cfg)
 	ex.Ex = Exclusions{PendingAcrossJoin: true}
 	for i, st := range c.Prefix {
-		if st.Op == OpTick || st.Op == OpPingResp || st.Op == OpLatency || st.Op == OpPose || st.Op == OpCompUpdate {
+		if st.Op == OpTick || st.Op == OpPingResp || st.Op == OpLatency || ((st.Op == OpPose || st.Op == OpCompUpdate) && !c.Frames) {
 			continue // nothing time-dependent: the scheduled driver has no clock
 		}
 		ex.stepIdx = i
@@ -91,6 +95,7 @@ func runBlock(c blockCase, policy func(y vsync.Yield, i int) int) (res blockResu
 		slot  int
 		bytes []byte
 		close bool
+		flush bool // no request of its own: the task handles what the frame released for this connection
 		op    BOp
 		req   uint32
 	}
@@ -134,6 +139,14 @@ func runBlock(c blockCase, policy func(y vsync.Yield, i int) int) (res blockResu
 			p = &hagallpb.EntityComponentTypeSubscribeRequest{Type: TSubReq, Timestamp: ts, RequestId: req, EntityComponentTypeId: uint32(1 + b.N%2)}
 		case "comp_add":
 			p = &hagallpb.EntityComponentAddRequest{Type: TCompAddReq, Timestamp: ts, RequestId: req, EntityComponentTypeId: uint32(1 + b.N%2), EntityId: uint32(1 + b.N%3), Data: []byte{byte(i)}}
+		case "flush":
+			plan = append(plan, planned{slot: b.Conn, flush: true, op: b})
+			continue
+		case "unsub":
+			if mc.Sess == nil {
+				continue
+			}
+			p = &hagallpb.EntityComponentTypeUnsubscribeRequest{Type: TUnsubReq, Timestamp: ts, RequestId: req, EntityComponentTypeId: 1}
 		case "comp_add_on":
 			if mc.Sess == nil {
 				continue // a module or core request outside a session may legitimately be dropped
@@ -182,11 +195,44 @@ func runBlock(c blockCase, policy func(y vsync.Yield, i int) int) (res blockResu
 	for slot := range ex.M.Conns {
 		inboxBefore[slot] = len(w.Inbox(slot))
 	}
+	// pending updates before the frame (what the flush tasks are going to handle)
+	type pend struct {
+		slot int
+		key  CompKey
+		eid  uint32
+		pose *[7]uint32
+	}
+	var pendingComp, pendingPose []pend
+	if c.Frames {
+		for slot, mc := range ex.M.Conns {
+			if !mc.joined() {
+				continue
+			}
+			for k := range mc.PendingComp {
+				pendingComp = append(pendingComp, pend{slot: slot, key: k})
+			}
+			for eid, st := range mc.PendingPose {
+				pendingPose = append(pendingPose, pend{slot: slot, eid: eid, pose: st.Pose})
+			}
+		}
+		// the frame worker's tick: every member's dispatcher releases its coalesced updates
+		for s := range w.sessions {
+			models.VerifDispatchFrame(s)
+		}
+	}
 	// run the block under the scheduler
 	var fns []func()
 	for _, pl := range plan {
 		pl := pl
 		fns = append(fns, func() {
+			if c.Frames {
+				if hc := w.conns[pl.slot]; hc != nil {
+					w.drain(hc) // released updates come first, as in the connection's own loop
+				}
+			}
+			if pl.flush {
+				return
+			}
 			if pl.close {
 				w.Close(pl.slot)
 			} else {
@@ -223,8 +269,13 @@ func runBlock(c blockCase, policy func(y vsync.Yield, i int) int) (res blockResu
 	}
 	if sched.Deadlock {
 		res.deadlock = true
-		fail("C09", "deadlock: no request of the block can continue: %s", strings.Join(sched.Blocked, "; "))
+		fail("C09,C08", "deadlock: no request of the block can continue: %s", strings.Join(sched.Blocked, "; "))
 		return // the blocked tasks hold locks: the world cannot be inspected or shut down
+	}
+	if len(sched.Leaked) > 0 {
+		res.deadlock = true
+		fail("C09,C08", "every request of the block returned, but a lock is still held - every later request that needs it blocks forever: %s", strings.Join(sched.Leaked, "; "))
+		return // the world cannot be inspected or shut down without blocking
 	}
 	for _, t := range w.Panics() {
 		fail("C09,C08", "server code panicked: %s", t)
@@ -298,6 +349,30 @@ func runBlock(c blockCase, policy func(y vsync.Yield, i int) int) (res blockResu
 	}
 	if g := sessionGauge() - gauge0; g != float64(registered) {
 		fail("C07", "session gauge moved by %v since the case started, %d session(s) are registered", g, registered)
+	}
+	// every member's connection keeps exactly one per-frame callback registered
+	for s := range sessions {
+		if got, ok := store.GetByGlobalID(store.GlobalSessionID(s.ID)); !ok || got != s {
+			continue // ended
+		}
+		if n := models.VerifFrameHandlerCount(s); n != s.ParticipantCount() {
+			fail("C09,C11,C13", "session %q has %d members but %d per-frame callbacks are registered (a member without one never gets its pose/component updates relayed)", store.GlobalSessionID(s.ID), s.ParticipantCount(), n)
+		}
+	}
+	// a departure removes the leaver's non-persistent entities: none may be left whose owner is gone
+	for s := range sessions {
+		pids := map[uint32]bool{}
+		for _, p := range s.GetParticipants() {
+			pids[p.ID] = true
+		}
+		if got, ok := store.GetByGlobalID(store.GlobalSessionID(s.ID)); !ok || got != s {
+			continue // ended
+		}
+		for _, e := range s.Entities() {
+			if !e.Persist && !pids[e.ParticipantID] {
+				fail("C06,C01", "session %q still holds the non-persistent entity %d of participant %d, who is no longer in the session", store.GlobalSessionID(s.ID), e.ID, e.ParticipantID)
+			}
+		}
 	}
 	// nothing may stay attached to an entity that is gone (a component / entity action added while the
 	// entity was being removed by its owner's delete or departure)
@@ -468,6 +543,147 @@ func runBlock(c blockCase, policy func(y vsync.Yield, i int) int) (res blockResu
 			}
 		}
 	}
+	// ---- frames: what the flush tasks released (C11, C13) ----
+	if c.Frames {
+		stable := true // no request of the block removes members, entities or components
+		opOf := map[int]string{}
+		for _, pl := range plan {
+			opOf[pl.slot] = pl.op.Kind
+			if pl.close || pl.op.Kind == "entity_del" || pl.op.Kind == "join_new" {
+				stable = false
+			}
+			if pl.op.Kind == "join_existing" {
+				if _, was := before[pl.slot]; was {
+					stable = false // a switch is a departure
+				}
+			}
+		}
+		// (a) after its unsubscription was answered a connection gets no further update notification
+		for _, pl := range plan {
+			if pl.op.Kind != "unsub" {
+				continue
+			}
+			answered := false
+			for _, rx := range w.Inbox(pl.slot)[inboxBefore[pl.slot]:] {
+				if rx.T == TUnsubResp && rx.ReqID() == pl.req {
+					answered = true
+					continue
+				}
+				if m, ok := rx.M.(*hagallpb.EntityComponentUpdateBroadcast); ok && answered && m.EntityComponent.GetEntityComponentTypeId() == 1 {
+					fail("C13", "connection c%d received an update notification for type 1 (entity %d) after its unsubscription from that type had been answered", pl.slot, m.EntityComponent.GetEntityId())
+				}
+			}
+		}
+		throughout := func(slot int, sess *models.Session) bool {
+			b, ok := before[slot]
+			if !ok || b.sess != sess || w.Ended(slot) || w.RH(slot) == nil || w.RH(slot).CurrentSession() != sess {
+				return false
+			}
+			k := opOf[slot]
+			return k != "close" && !strings.HasPrefix(k, "join")
+		}
+		if stable {
+			// (b) component updates: exactly once to every member subscribed throughout, never to others
+			for slot := range before {
+				mc := ex.M.Conns[slot]
+				if mc == nil || !mc.joined() || !throughout(slot, before[slot].sess) {
+					continue
+				}
+				want := map[CompKey]int{}
+				for _, p := range pendingComp {
+					if p.slot == slot || before[p.slot].sess != before[slot].sess {
+						continue
+					}
+					if _, exists := mc.Sess.Comps[p.key]; exists {
+						want[p.key]++
+					}
+				}
+				got := map[CompKey]int{}
+				for _, rx := range w.Inbox(slot)[inboxBefore[slot]:] {
+					if m, ok := rx.M.(*hagallpb.EntityComponentUpdateBroadcast); ok {
+						got[CompKey{m.EntityComponent.GetEntityComponentTypeId(), m.EntityComponent.GetEntityId()}]++
+					}
+				}
+				for k, n := range want {
+					_, subscribed := mc.Sess.Subs[k.Tid][mc.Pid]
+					switch {
+					case opOf[slot] == "unsub" && k.Tid == 1, opOf[slot] == "sub":
+						if got[k] > n {
+							fail("C13,C02", "connection c%d received the update of component (%d,%d) %d times, %d member(s) sent one", slot, k.Tid, k.Eid, got[k], n)
+						}
+					case subscribed && got[k] != n:
+						fail("C13,C02", "connection c%d (subscribed to type %d throughout) received the update of component (%d,%d) %d times, %d member(s) sent one", slot, k.Tid, k.Tid, k.Eid, got[k], n)
+					case !subscribed && got[k] != 0:
+						fail("C13", "connection c%d is not subscribed to type %d but received %d update notification(s) for component (%d,%d)", slot, k.Tid, got[k], k.Tid, k.Eid)
+					}
+				}
+			}
+			// (c) poses: the owner's pending update is relayed exactly once to every member present
+			// throughout; a newcomer ends up with it (in its snapshot or by the relay)
+			for _, p := range pendingPose {
+				fm := ex.M.Conns[p.slot]
+				if fm == nil || !fm.joined() || p.pose == nil {
+					continue
+				}
+				en := fm.Sess.Ents[p.eid]
+				if en == nil || en.Owner != fm.Pid {
+					continue // dropped: not the owner / no such entity
+				}
+				sess := before[p.slot].sess
+				for slot := range ex.M.Conns {
+					if slot == p.slot {
+						continue
+					}
+					rh := w.RH(slot)
+					if rh == nil || w.Ended(slot) || rh.CurrentSession() != sess {
+						continue
+					}
+					msgs := w.Inbox(slot)[inboxBefore[slot]:]
+					n, last := 0, [7]uint32{}
+					haveLast := false
+					if throughout(slot, sess) {
+						for _, rx := range msgs {
+							if m, ok := rx.M.(*hagallpb.EntityUpdatePoseBroadcast); ok && m.EntityId == p.eid {
+								n++
+								last, haveLast = f32bits(m.Pose), true
+							}
+						}
+						if n != 1 || !haveLast || last != *p.pose {
+							fail("C11,C02", "connection c%d (in the session throughout) received the pose update of entity %d %d times (last %08x, sent %08x)", slot, p.eid, n, last, *p.pose)
+						}
+						continue
+					}
+					// joined inside the block
+					joinedAt := -1
+					for i, rx := range msgs {
+						if _, ok := rx.M.(*hagallpb.ParticipantJoinResponse); ok {
+							joinedAt = i
+						}
+					}
+					if joinedAt < 0 {
+						continue
+					}
+					for _, rx := range msgs[joinedAt:] {
+						if ss, ok := rx.M.(*hagallpb.SessionState); ok && !haveLast {
+							for _, e := range ss.Entities {
+								if e.Id == p.eid {
+									last, haveLast = f32bits(e.Pose), true
+								}
+							}
+						}
+					}
+					for _, rx := range msgs[joinedAt:] {
+						if m, ok := rx.M.(*hagallpb.EntityUpdatePoseBroadcast); ok && m.EntityId == p.eid {
+							last, haveLast = f32bits(m.Pose), true
+						}
+					}
+					if !haveLast || last != *p.pose {
+						fail("C11,C01", "connection c%d joined while the owner's pose update of entity %d was being processed and ends up with pose %08x, the server holds %08x", slot, p.eid, last, *p.pose)
+					}
+				}
+			}
+		}
+	}
 	// convergence (C01): what every member can reconstruct equals what the server holds
 	for slot := range ex.M.Conns {
 		rh := w.RH(slot)
@@ -549,6 +765,14 @@ func runBlock(c blockCase, policy func(y vsync.Yield, i int) int) (res blockResu
 		for _, e := range s.Entities() {
 			srvEnts[e.ID] = true
 		}
+		// a member that left this session inside the block and is still in this connection's replica:
+		// the connection was in the session (it holds the leaver in its state) and was never told (C02, C06)
+		for _, pl := range plan {
+			ob, wasMember := before[pl.slot]
+			if (pl.close || strings.HasPrefix(pl.op.Kind, "join")) && wasMember && ob.sess == s && pl.slot != slot && (w.Ended(pl.slot) || (w.RH(pl.slot) != nil && w.RH(pl.slot).CurrentSession() != s)) && parts[ob.pid] && !srvParts[ob.pid] {
+				fail("C01,C02,C06", "connection c%d (participant %d) holds participant %d in its state but was never told that it left", slot, rh.CurrentParticipant().ID, ob.pid)
+			}
+		}
 		if d := setDiff(parts, srvParts); d != "" {
 			fail("C01", "connection c%d (participant %d) reconstructs other participants than the server holds: %s", slot, rh.CurrentParticipant().ID, d)
 		}
@@ -607,6 +831,9 @@ func genBlockCase(rt *rapid.T) blockCase {
 		{"sub", "comp_add"}, {"type_add", "type_add", "type_add"}, {"close", "close", "join_new"}, {"close", "join_new", "join_new"}, {"close", "close", "close"},
 		{"comp_add_on", "entity_del"}, {"comp_add_on", "close"}, {"action_on", "entity_del"}, {"action_on", "close"}, {"comp_add_on", "comp_add_on"},
 		{"comp_add_on", "entity_del", "join_existing"}, {"action_on", "comp_add_on", "close"},
+	}
+	if uni(rt, "with_frames", 5) == 0 {
+		return genFrameBlock(rt)
 	}
 	directed := false
 	if uni(rt, "templated", 4) != 0 {
@@ -674,6 +901,60 @@ func genBlockCase(rt *rapid.T) blockCase {
 	return c
 }
 
+// genFrameBlock: blocks in which a frame's released updates are handled concurrently with
+// subscription changes, joins and other requests.
+func genFrameBlock(rt *rapid.T) blockCase {
+	c := blockCase{Conns: 4, Frames: true}
+	pose := func(v uint32) *[7]uint32 { return &[7]uint32{v, 0, 0, 0, 0, 0, 0x3f800000} }
+	c.Prefix = []Step{
+		{Conn: 0, Op: OpJoin, Sess: Ref{Kind: SessNew}},
+		{Conn: 1, Op: OpJoin, Sess: Ref{Kind: SessLive}},
+		{Conn: 2, Op: OpJoin, Sess: Ref{Kind: SessLive}},
+		{Conn: 0, Op: OpEntityAdd, Pose: pose(0x3f800000)},
+		{Conn: 2, Op: OpEntityAdd, Pose: pose(0x40000000), Persist: uni(rt, "persist", 2) == 0},
+		{Conn: 0, Op: OpTypeAdd, Name: "a"},
+		{Conn: 0, Op: OpCompAdd, Ent: Ref{Kind: EntMine}, Typ: Ref{Kind: TypEver}, Data: []byte{1}},
+	}
+	sub := func(conn int) { c.Prefix = append(c.Prefix, Step{Conn: conn, Op: OpSub, Typ: Ref{Kind: TypEver}}) }
+	switch uni(rt, "frame_template", 5) {
+	case 0: // an update is handed out while a subscriber unsubscribes
+		sub(1)
+		if uni(rt, "second_subscriber", 2) == 0 {
+			sub(2)
+		}
+		c.Prefix = append(c.Prefix, Step{Conn: 0, Op: OpCompUpdate, Ent: Ref{Kind: EntMine}, Typ: Ref{Kind: TypEver}, Data: []byte{2}})
+		c.Block = []BOp{{Conn: 0, Kind: "flush"}, {Conn: 1, Kind: "unsub"}}
+		if uni(rt, "third", 2) == 0 {
+			c.Block = append(c.Block, BOp{Conn: 2, Kind: pick(rt, "third_kind", []string{"unsub", "sub", "custom", "comp_add_on"}), N: 2})
+		}
+	case 1: // two members update the same component, a third is subscribed, a fourth subscribes
+		sub(1)
+		c.Prefix = append(c.Prefix,
+			Step{Conn: 0, Op: OpCompUpdate, Ent: Ref{Kind: EntMine}, Typ: Ref{Kind: TypEver}, Data: []byte{2}},
+			Step{Conn: 2, Op: OpCompUpdate, Ent: Ref{Kind: EntForeign}, Typ: Ref{Kind: TypEver}, Data: []byte{3}})
+		c.Block = []BOp{{Conn: 0, Kind: "flush"}, {Conn: 2, Kind: "flush"}, {Conn: 1, Kind: pick(rt, "k1", []string{"unsub", "custom", "flush"})}}
+	case 2: // the owner's pose update is processed while somebody joins
+		c.Prefix = append(c.Prefix, Step{Conn: 0, Op: OpPose, Ent: Ref{Kind: EntMine}, Pose: pose(0x40400000 + uint32(uni(rt, "px", 64)))})
+		c.Block = []BOp{{Conn: 0, Kind: "flush"}, {Conn: 3, Kind: "join_existing"}}
+		if uni(rt, "third", 2) == 0 {
+			c.Block = append(c.Block, BOp{Conn: 1, Kind: pick(rt, "third_kind", []string{"custom", "entity_add", "sub"})})
+		}
+	case 3: // two owners' pose updates and a joiner
+		c.Prefix = append(c.Prefix,
+			Step{Conn: 0, Op: OpPose, Ent: Ref{Kind: EntMine}, Pose: pose(0x40400000)},
+			Step{Conn: 2, Op: OpPose, Ent: Ref{Kind: EntMine}, Pose: pose(0x40800000)})
+		c.Block = []BOp{{Conn: 0, Kind: "flush"}, {Conn: 2, Kind: "flush"}, {Conn: 3, Kind: "join_existing"}}
+	default: // updates are processed while members leave or entities go (no count oracle: only the invariants)
+		sub(1)
+		c.Prefix = append(c.Prefix,
+			Step{Conn: 0, Op: OpCompUpdate, Ent: Ref{Kind: EntMine}, Typ: Ref{Kind: TypEver}, Data: []byte{2}},
+			Step{Conn: 0, Op: OpPose, Ent: Ref{Kind: EntMine}, Pose: pose(0x40400000)},
+			Step{Conn: 2, Op: OpPose, Ent: Ref{Kind: EntMine}, Pose: pose(0x40800000)})
+		c.Block = []BOp{{Conn: 0, Kind: "flush"}, {Conn: 2, Kind: pick(rt, "k2", []string{"flush", "close", "entity_del"})}, {Conn: 1, Kind: pick(rt, "k1", []string{"close", "unsub", "join_new"})}}
+	}
+	return c
+}
+
 func schedTags(prop string, tags string) bool {
 	for _, t := range strings.Split(tags, ",") {
 		if t == prop {
@@ -686,7 +967,7 @@ func schedTags(prop string, tags string) bool {
 // schedTest is shared by the properties with a concurrency clause.
 func schedTest(t *testing.T, prop string) {
 	thorough := os.Getenv("VERIF_TIER") == "thorough"
-	col := NewCollector(prop, "S", "scheduled driver: a sequential prefix (<=6 state-building + <=12 steps, 2-4 connections, all modules) followed by a block of 2-3 requests by different connections (join of an existing session, creation, close, entity add/delete, custom message, registration of one type name, subscribe, component add, asset add) executed as tasks of a cooperative scheduler with a yield before every lock acquisition in models/ and module state; quick tier: the continuing task at each yield is drawn by rapid; thorough tier: additionally, for each generated block, every schedule with at most 2 preemptions is enumerated; oracles at quiescence through exported API: no deadlock, every request answered once, no orphaned join (returned id resolves to the joiner's session), registry == non-empty sessions, no shared session/participant/entity ids, type names and ids one-to-one, session gauge == registered sessions, exactly-once relays to members present throughout, replicas == server state; non-trivial = distinct (block, schedule) with >=1 preemption, i.e. a request was descheduled between two of its lock acquisitions although it could have continued")
+	col := NewCollector(prop, "S", "scheduled driver: a sequential prefix (<=6 state-building + <=12 steps, 2-4 connections, all modules) followed by a block of 2-3 requests by different connections (join of an existing session, creation, close, entity add/delete, custom message, registration of one type name, subscribe/unsubscribe, component add, entity action or component on an entity that another request removes, asset add; in one block of five a frame is dispatched first and the pose/component updates it releases are handled by their senders' tasks) executed as tasks of a cooperative scheduler with a yield before every lock acquisition in models/ and module state; quick tier: the continuing task at each yield is drawn by rapid; thorough tier: additionally, for each generated block, every schedule with at most 2 preemptions is enumerated; oracles at quiescence through exported API: no deadlock, every request answered once, no orphaned join (returned id resolves to the joiner's session), registry == non-empty sessions, no shared session/participant/entity ids, type names and ids one-to-one, session gauge == registered sessions, exactly-once relays to members present throughout, replicas == server state, no lock left held, nothing attached to an entity that is gone, no non-persistent entity of a departed member, one per-frame callback per member, no update notification after an answered unsubscription, released pose/component updates relayed exactly once to the members (subscribers) present throughout and reflected in a newcomer's state; non-trivial = distinct (block, schedule) with >=1 preemption, i.e. a request was descheduled between two of its lock acquisitions although it could have continued")
 	t.Cleanup(col.Write)
 	if rp := os.Getenv("VERIF_REPLAY"); rp != "" {
 		var c blockCase
@@ -710,6 +991,13 @@ func schedTest(t *testing.T, prop string) {
 		base := make([]int, 1)
 		base[0] = uni(rt, "first", 3)
 		run := func(choices []int) blockResult {
+			if curFile != "" { // lets the driver re-run this very schedule alone if the process wedges
+				cc := c
+				cc.Choices = choices
+				if b, err := jsonMarshal(cc); err == nil {
+					os.WriteFile(curFile, []byte(b), 0o644)
+				}
+			}
 			return runBlock(c, func(y vsync.Yield, i int) int { return schedulePolicy(choices, y, i) })
 		}
 		res0 := run(base)
@@ -749,7 +1037,7 @@ func schedTest(t *testing.T, prop string) {
 		}
 		res := run(c.Choices)
 		b, _ := jsonMarshal(c)
-		col.Case(b, res.preempts >= 1, map[string]int{"yields": res.yields, "preempted": res.preempts, "deadlock": b2i(res.deadlock), "other_property": b2i(res.viol != "" && !schedTags(prop, res.tags))}, func() any { return c.pretty() })
+		col.Case(b, res.preempts >= 1, map[string]int{"yields": res.yields, "preempted": res.preempts, "deadlock": b2i(res.deadlock), "other_property": b2i(res.viol != "" && !schedTags(prop, res.tags)), "block_with_frame": b2i(c.Frames)}, func() any { return c.pretty() })
 		report(res, c.Choices)
 		// a few more sampled schedules of the same block
 		for j := 0; j < 10; j++ {
@@ -882,4 +1170,7 @@ func TestC07Sched(t *testing.T) { schedTest(t, "C07") }
 func TestC09Sched(t *testing.T) { schedTest(t, "C09") }
 func TestC10Sched(t *testing.T) { schedTest(t, "C10") }
 func TestC12Sched(t *testing.T) { schedTest(t, "C12") }
+func TestC08Sched(t *testing.T) { schedTest(t, "C08") }
+func TestC11Sched(t *testing.T) { schedTest(t, "C11") }
+func TestC13Sched(t *testing.T) { schedTest(t, "C13") }
 func TestC06Sched(t *testing.T) { schedTest(t, "C06") }
